@@ -8,6 +8,7 @@ import (
 	"github.com/lyraproj/issue/issue"
 	"github.com/lyraproj/pcore/px"
 	"github.com/lyraproj/pcore/types"
+	"github.com/lyraproj/pcore/verifhook"
 )
 
 type (
@@ -172,28 +173,34 @@ func (c *pxContext) Reflector() px.Reflector {
 var resolveLock sync.Mutex
 
 func resolveResolvables(c px.Context) {
+	verifhook.PointLock("resolve.before-lock", &resolveLock)
 	resolveLock.Lock()
 	defer resolveLock.Unlock()
 
 	l := c.Loader().(px.DefiningLoader)
 	ts := types.PopDeclaredTypes()
+	verifhook.Point("resolve.popped-types")
 	for _, rt := range ts {
 		l.SetEntry(px.NewTypedName(px.NsType, rt.Name()), px.NewLoaderEntry(rt, nil))
 	}
 
 	for _, mp := range types.PopDeclaredMappings() {
+		verifhook.Point("resolve.mapping")
 		c.ImplementationRegistry().RegisterType(mp.T, mp.R)
 	}
 
+	verifhook.Point("resolve.bound")
 	resolveTypes(c, ts...)
 
 	ctors := types.PopDeclaredConstructors()
+	verifhook.Point("resolve.popped-constructors")
 	for _, ct := range ctors {
 		rf := px.BuildFunction(ct.Name, ct.LocalTypes, ct.Creators)
 		l.SetEntry(px.NewTypedName(px.NsConstructor, rf.Name()), px.NewLoaderEntry(rf.Resolve(c), nil))
 	}
 
 	fs := popDeclaredGoFunctions()
+	verifhook.Point("resolve.popped-functions")
 	for _, rf := range fs {
 		l.SetEntry(px.NewTypedName(px.NsFunction, rf.Name()), px.NewLoaderEntry(rf.Resolve(c), nil))
 	}
